@@ -24,7 +24,7 @@ def cases(tier, rng):
     # canonical terms (the class of Proofs/TermRoundtripMain.v, plus `$_` as a list tail): Display gives the canonical
     # text, and the text parses back to the term
     from lib.sx import atom, integer, var, cplx, lst, ANON, EMPTY, S
-    ATOMS = ["a", "b", "abc", "x_1", "aB9", "z"]
+    ATOMS = ["a", "b", "abc", "x_1", "aB9", "z", "New York", "Abc", "1a", "R2-D2", "well-known", "555-1234", "2023-09-22", "1-2", "a-1"]
     VNAMES = ["$X", "$Y", "$Tail", "$x1", "$A_b"]
     def canon(depth):
         """-> (wire term, text)"""
